@@ -3,7 +3,7 @@ import ZvbiModel.Proxy.Model
 /-!
 # Driver for component `proxy` (C19): the model of the proxy daemon on the line protocol of harness/proxy_harness.c
 
-ops: `dev d sup api scan getscan` | `maxconn n` | `connect d` | `send h hex` | `shut h` | `iter` | `recv h` | `tick n` |
+ops: `dev d sup api scan getscan` | `maxconn n` | `connect d` | `send h hex` | `shut h` | `shutrd h` | `iter` | `recv h` | `tick n` |
 `alarm` | `frame d id,id,..` | `sizes`.  After a fault of the model (`abort <site>`) the daemon is dead: every later op
 of the case answers `dead` (the real daemon has aborted; the check compares "model aborts" with "harness crashed").
 -/
@@ -106,6 +106,13 @@ def step (st : DState) (ws : List String) : DState × String :=
     match rest with
     | [w] => match handleOf st w with
       | some (some h) => if (getSock st.s h).shut then (st, "rej noclient") else runOp st (.shut h) (fun _ => "ok")
+      | some none => (st, "rej noclient")
+      | none => (st, "rej parse")
+    | _ => (st, "rej parse")
+  | "shutrd" :: rest =>
+    match rest with
+    | [w] => match handleOf st w with
+      | some (some h) => if (getSock st.s h).shut || (getSock st.s h).rdShut then (st, "rej noclient") else runOp st (.shutRd h) (fun _ => "ok")
       | some none => (st, "rej noclient")
       | none => (st, "rej parse")
     | _ => (st, "rej parse")
